@@ -31,11 +31,18 @@ def incs():
 # clang-compatibility rewrites of /repo sources (the project is built with g++; clang 14 rejects one construct).  Applied to a
 # copy under build/patched/ on every run; if the pattern is not found the file is used unchanged (and clang reports the error).
 REPO_PATCHES = {
-    'src/djinterop/engine/v1/engine_storage.cpp': [(
-        # delegating constructor initialised from a prvalue of the same class: g++ elides the copy, clang 14 asks for the
-        # (deleted) copy constructor.  The rewrite performs the same two calls in member-initialiser form.
-        re.compile(r'engine_storage::engine_storage\(const std::string& directory\) :\s*engine_storage\{load_existing\(directory\)\}'),
-        'engine_storage::engine_storage(const std::string& directory) :\n    directory{directory}, db{load_legacy_sqlite_database(directory)},\n    schema{schema::detect_schema(db, "music")}')],
+    'src/djinterop/engine/v1/engine_storage.cpp': [
+        # delegating constructor initialised from a prvalue of the same class: g++ elides the copy, clang 14 asks for the (deleted) copy
+        # constructor.  The rewrite keeps the REAL body of load_existing (whatever the working tree holds): only its return type becomes a
+        # plain aggregate of the three constructor arguments, and the delegating constructor passes them on to the public three-argument
+        # constructor (braced-init-list: evaluated left to right, load_existing runs exactly once).  An earlier version of this rewrite
+        # transcribed the body of load_existing into the constructor - a change to load_existing was then invisible (seeded change C13-4).
+        (re.compile(r'engine_storage load_existing\(const std::string& directory\)'),
+         'struct verif_parts { std::string directory; engine_schema schema; sqlite::database db; };\nverif_parts load_existing(const std::string& directory)'),
+        (re.compile(r'return engine_storage\{directory, schema, db\};'), 'return verif_parts{directory, schema, db};'),
+        (re.compile(r'engine_storage::engine_storage\(const std::string& directory\) :\s*engine_storage\{load_existing\(directory\)\}'),
+         'static verif_parts* verif_last;\nstatic verif_parts& verif_load(const std::string& d) { delete verif_last; verif_last = new verif_parts(load_existing(d)); return *verif_last; }\n'
+         'engine_storage::engine_storage(const std::string& directory) :\n    engine_storage{verif_load(directory).directory, verif_last->schema, verif_last->db}')],
 }
 def patched_repo_file(rel):
     src = os.path.join(REPO, rel)
